@@ -254,6 +254,9 @@ pub fn make_case(seed: u64, run: u64, thorough: bool, _stats: &mut Stats) -> Opt
     // ---- seeded part
     let rs = run_seed(seed, "C15", run);
     let mut r = Rng::new(rs);
+    if r.chance(12) {
+        return parser_case(seed, run, &mut r, thorough);
+    }
     let base = |r: &mut Rng| -> (String, Vec<u8>) {
         if r.chance(45) && !ex.is_empty() {
             ex[r.usize_below(ex.len())].clone()
@@ -471,6 +474,96 @@ pub fn make_case(seed: u64, run: u64, thorough: bool, _stats: &mut Stats) -> Opt
     Some(c)
 }
 
+const EXTREME_NUMBERS: [&str; 18] = [
+    "0", "-0", "00000000000000000000000000000007", "255", "256", "-129", "65535", "65536", "-32769", "1048575", "1048576",
+    "4294967296", "18446744073709551616", "99999999999999999999999999999999999999", "0x", "0xFFFFFFFFFFFFFFFFF", "0b", "0b2",
+];
+
+/// IR lines (what the assembler hands to the data loader, the interpreter and the print reader)
+/// of a generated program, damaged token by token, plus a few lines damaged byte by byte. This
+/// sub-part is plain input mutation (the property quantifies over strings given directly to the
+/// four parsers); it is reported as such in the evidence.
+fn parser_case(seed: u64, run: u64, r: &mut Rng, thorough: bool) -> Option<Case> {
+    let mut feat = Feat::swarm(r, 60);
+    feat.prints = true;
+    feat.data = true;
+    let cfg = GenCfg { feat, layout: Layout::plain(), body_lo: 3, body_hi: 20 };
+    let mut pr = r.fork("program");
+    let p = generate(&mut pr, &cfg);
+    let text = p.render();
+    let mut ir: Vec<String> = Vec::new();
+    {
+        let re = regex::Regex::new(r";.*\n?").unwrap();
+        let unc = re.replace_all(&text, "\n").to_string();
+        let pre = Preprocessor::new();
+        let mut ctx = PreprocessorContext::default();
+        let mut out = PreprocessorOutput::default();
+        if pre.parse(&mut ctx, &mut out, &unc).is_ok() {
+            ir.extend(out.code.iter().cloned());
+            ir.extend(out.data.iter().cloned());
+        }
+    }
+    ir.extend(["print mem 0 -> 15", "print mem 5 : 3", "print mem : 7", "print reg", "print flags", "db [5, 3]", "dw \"ab\"", "set 12", "rep movs byte", "int 33"].iter().map(|s| s.to_string()));
+    let mut inputs: Vec<String> = Vec::new();
+    let n = if thorough { 60 } else { 30 };
+    for _ in 0..n {
+        let base = r.pick(&ir).clone();
+        let toks: Vec<&str> = base.split(' ').collect();
+        let m = match r.below(12) {
+            0 | 1 | 2 | 3 => {
+                // a number token replaced by an extreme one (or, failing that, appended)
+                let nums: Vec<usize> = toks.iter().enumerate().filter(|(_, t)| t.chars().next().map(|c| c.is_ascii_digit() || c == '-').unwrap_or(false)).map(|(i, _)| i).collect();
+                let big = if r.chance(10) { "9".repeat(if thorough { 100_000 } else { 3000 }) } else { (*r.pick(&EXTREME_NUMBERS)).to_owned() };
+                if nums.is_empty() {
+                    format!("{} {}", base, big)
+                } else {
+                    let k = *r.pick(&nums);
+                    let mut t: Vec<String> = toks.iter().map(|x| x.to_string()).collect();
+                    t[k] = big;
+                    t.join(" ")
+                }
+            }
+            4 => toks[..r.usize_below(toks.len() + 1)].join(" "),
+            5 => {
+                let mut t: Vec<&str> = toks.clone();
+                let k = r.usize_below(t.len() + 1);
+                t.insert(k, *r.pick(&["[", "]", "\"", ",", ":", "->", "(", ")", "{", "}", "-", "word", "byte", "offset", "cs:", "es"]));
+                t.join(" ")
+            }
+            6 => {
+                let mut t: Vec<&str> = toks.clone();
+                if !t.is_empty() {
+                    let k = r.usize_below(t.len());
+                    t.remove(k);
+                }
+                t.join(" ")
+            }
+            7 => format!("{} {}", base, base),
+            8 => {
+                let mut b = base.clone().into_bytes();
+                if !b.is_empty() {
+                    let k = r.usize_below(b.len());
+                    b[k] = *r.pick(&TROUBLE);
+                }
+                String::from_utf8_lossy(&b).into_owned()
+            }
+            9 => (*r.pick(&["", " ", "\t", "\n", "\"", "\"\"", "[", "[[[[[[[[[[[[[[[[", "db \"", "dw [", "print mem", "print mem ->", "print mem 1 :", "\u{e9}", "\u{a0}mov ax, 1", "mov\u{2028}ax, 1"])).to_owned(),
+            10 => base.to_ascii_uppercase(),
+            _ => base.replace(' ', "  "),
+        };
+        if m.len() < 200_000 && !inputs.contains(&m) {
+            inputs.push(m);
+        }
+    }
+    let mut scn = Scenario::new(b"start:\nhlt\n");
+    scn.fuel = 100;
+    let mut c = Case::new("C15", "parser", seed, run, scn);
+    c.config = "direct_parser_strings".to_owned();
+    c.faults = vec!["ir_token_mutation".to_owned()];
+    c.parser_inputs = inputs;
+    Some(c)
+}
+
 thread_local! {
     static PARSERS: (Preprocessor, DataParser, Interpreter, crate::driver::print::PrintParser) =
         (Preprocessor::new(), DataParser::new(), Interpreter::new(), crate::driver::print::PrintParser::new());
@@ -486,7 +579,7 @@ pub fn direct_parsers(inputs: &[String]) -> Vec<(String, String, String)> {
         fn emit(&mut self, _: &'static str, _: u32, _: &str) {
             // the print reader writes as it goes: endless output is a hang, not a result
             self.0 += 1;
-            if self.0 > 1_200_000 {
+            if self.0 > crate::world::MAX_RECORDS_PER_STATEMENT {
                 std::panic::resume_unwind(Box::new(crate::world::SimSpin));
             }
         }
@@ -635,14 +728,18 @@ pub fn judge(case: &Case, ex: &Exec) -> Vec<Violation> {
         }
     }
     // time proportional to the input: generous budget, re-measured before it is reported
+    // (thread CPU time, not wall time: a busy machine must not raise an alarm; output counts as
+    // input here, a statement may legitimately print a megabyte)
     let n = case.scn.source.0.len() as u64;
-    let budget_us = 2_000_000 + 50 * n;
-    if ex.wall_us > budget_us && !h.out_of_fuel() {
+    let recs = h.events.len() as u64;
+    let budget_us = 2_000_000 + 50 * n + 10 * recs;
+    if case.kind != "scaling" && ex.cpu_us > budget_us && !h.out_of_fuel() {
         let mut all = true;
+        let mut last = ex.cpu_us;
         for _ in 0..3 {
-            let t = std::time::Instant::now();
-            let _ = crate::world::run_cli(&case.scn);
-            if (t.elapsed().as_micros() as u64) <= budget_us {
+            let (_, c) = crate::world::run_cli_cpu(&case.scn);
+            last = c;
+            if c <= budget_us {
                 all = false;
                 break;
             }
@@ -650,7 +747,7 @@ pub fn judge(case: &Case, ex: &Exec) -> Vec<Violation> {
         if all {
             v.push(Violation::new(
                 "C15:superlinear",
-                format!("processing {} bytes took {} ms (budget {} ms), re-measured three times", n, ex.wall_us / 1000, budget_us / 1000),
+                format!("processing {} bytes ({} console events) took {} ms of CPU (budget {} ms), re-measured three times", n, recs, last / 1000, budget_us / 1000),
             ));
         }
     }
